@@ -352,3 +352,22 @@ impl<E: Effect> Repl<E> {
         &self.last_result_type
     }
 }
+
+/// Verification hook (compiled only with `--cfg quiver_verif`): read-only view of the binding map
+/// for an external harness that compares the REPL's bookkeeping with a model.
+#[cfg(quiver_verif)]
+impl<E: Effect> Repl<E> {
+    /// `(name, Some(local index))` for variables, `(name, None)` for type aliases; sorted by name.
+    pub fn verif_bindings(&self) -> Vec<(String, Option<usize>)> {
+        let mut out: Vec<(String, Option<usize>)> = self
+            .bindings
+            .iter()
+            .map(|(name, binding)| match binding {
+                Binding::Variable { index, .. } => (name.clone(), Some(*index)),
+                Binding::TypeAlias(_) => (name.clone(), None),
+            })
+            .collect();
+        out.sort();
+        out
+    }
+}
